@@ -73,12 +73,13 @@ let () =
          if not (sa && sb) then print_endline head else begin
            (* the rule enters only through the boundary of lines (LocateDefs.loc_lines): without lines one evaluation serves all four *)
            let nolines = lines_of ga = [] && lines_of gb = [] in
-           let m = relate_oracle Mod2 ga gb in
-           let ms = if nolines then [m; m; m; m] else m :: List.map (fun r -> relate_oracle r ga gb) (List.tl rules) in
+           let runs = List.map (fun r -> oracle_run r ga gb) (if nolines then [Mod2] else rules) in
+           let ms = if nolines then (let m = fst (List.hd runs) in [m; m; m; m]) else List.map fst runs in
+           let m = List.hd ms in
            let mt = relate_oracle Mod2 gb ga in
            let eA = env_of ga and eB = env_of gb in
            let real = List.for_all (fun m -> realizable_b dA dB eA eB m) ms in
-           let sok = List.for_all (fun r -> side_ok r ga gb) (if nolines then [Mod2] else rules) in
+           let sok = List.for_all snd runs in
            let named = named_values dA dB m in
            let pl = if pats = "-" then [] else List.filter (fun s -> String.length s = 9) (String.split_on_char ',' pats) in
            let extra = Buffer.create 64 in
